@@ -799,10 +799,30 @@ def _replace_case(arg):
     return res
 
 
+def _mb_tables():
+    """multi-byte identifier variants of every slot (multi-byte text before the target on its line: byte/char columns)"""
+    import c01_targets
+    out = []
+    for table, kids, pat in ((SLOTS, CHILDREN, False), (PAT_SLOTS, PAT_CHILDREN, True)):
+        t2 = {}
+        for key, (psrc, path) in table.items():
+            m = c01_targets.mb(psrc)
+            if m is not None:
+                t2[(key[0], key[1] + '@mb')] = (m, path)
+        out.append((t2, kids, pat))
+    return out
+
+
+MB_KEYS = {}
+
+
 def replace_jobs(ctx, full):
     rng = random.Random(ctx.rng.random())
     jobs = []
-    for table, kids, pat in ((SLOTS, CHILDREN, False), (PAT_SLOTS, PAT_CHILDREN, True)):
+    mbt = _mb_tables()
+    for t2, _, pat in mbt:
+        MB_KEYS.update(t2)
+    for table, kids, pat in ((SLOTS, CHILDREN, False), (PAT_SLOTS, PAT_CHILDREN, True)) + tuple(mbt):
         for key, (psrc, path) in table.items():
             for ck, csrc in kids.items():
                 combos = [(l, f) for l in LAYOUTS for f in ('src', 'ast', 'fst')]
@@ -876,8 +896,15 @@ def replay(ctx, data):
     if w.get('c09b'):
         return c09b.replay_c09b(ctx, w)
     key = tuple(w['slot'])
-    pat = key in PAT_SLOTS
-    psrc, path = (PAT_SLOTS if pat else SLOTS)[key]
+    if key[1].endswith('@mb'):
+        for t2, _, p2 in _mb_tables():
+            MB_KEYS.update(t2)
+        base = (key[0], key[1][:-3])
+        pat = base in PAT_SLOTS
+        psrc, path = MB_KEYS[key]
+    else:
+        pat = key in PAT_SLOTS
+        psrc, path = (PAT_SLOTS if pat else SLOTS)[key]
     csrc = (PAT_CHILDREN if pat else CHILDREN)[w['child']]
     r = _replace_case((key, psrc, path, pat, w['child'], csrc, w['layout'], w['form'], w.get('via', 'replace')))
     if 'fail' in r:
